@@ -17,6 +17,23 @@ type SubscriptionService struct {
 	// pub sub stuff
 	Mu   sync.Mutex
 	Subs map[uint32]*Subscription
+
+	// lastID is the most recently assigned subscription id.
+	lastID uint32
+}
+
+// nextSubID returns a subscription id that is not in use. The caller must hold Mu.
+// (len(Subs)+1 hands out the id of a live subscription once an older one was deleted.)
+func (s *SubscriptionService) nextSubID() uint32 {
+	for {
+		s.lastID++
+		if s.lastID == 0 {
+			continue
+		}
+		if _, used := s.Subs[s.lastID]; !used {
+			return s.lastID
+		}
+	}
 }
 
 // get rid of all references to a subscription and all monitored items that are pointed at this subscription.
@@ -55,7 +72,7 @@ func (s *SubscriptionService) CreateSubscription(sc *uasc.SecureChannel, r ua.Re
 	s.Mu.Lock()
 	defer s.Mu.Unlock()
 
-	newsubid := uint32(len(s.Subs)) + 1
+	newsubid := s.nextSubID()
 
 	if s.srv.cfg.logger != nil {
 		s.srv.cfg.logger.Info("New Sub %d for %v", newsubid, sc.RemoteAddr())
